@@ -30,6 +30,7 @@ import LinVerif.Lemmas.C19Carried
 import LinVerif.Lemmas.C19Recover
 import LinVerif.Lemmas.C19Term
 import LinVerif.Lemmas.C19Pool
+import LinVerif.Lemmas.C19Broker
 import LinVerif.Generated.C19
 
 namespace LinVerif.Props.C19
@@ -259,6 +260,40 @@ theorem reject_xor_execute (es : List PoolSubmit.Ev) (s : PoolSubmit.St)
   simp only [PoolSubmit.count] at hc
   refine ⟨fun ⟨h1, h2⟩ => ?_, ?_, ?_⟩ <;> omega
 
+/-! ## the broker side of a metadata query: no successful partial answer -/
+
+/-- **broker_meta_error_iff.** A metadata (suggest) query over `n ≥ 1` target nodes, for every
+multiset of answers and EVERY arrival order (`rs` is any list of `n` answers): the query completes
+exactly once; it reports an error iff some node answered with a real error (`ErrMsg`, no payload) or
+an undecodable payload — a failure in one node is never turned into the healthy nodes' values —
+and without such an answer it returns all nodes' values (not-found nodes contribute none). -/
+theorem broker_meta_error_iff (n : Nat) (rs : List BrokerMeta.Resp) (hl : rs.length = n) (hn : 0 < n) :
+    (BrokerMeta.run false n false rs).completed = true ∧ (BrokerMeta.run false n false rs).closes = 1 ∧
+    ((BrokerMeta.run false n false rs).err = true ↔ ∃ r ∈ rs, r.isErr = true) ∧
+    ((∀ r ∈ rs, r.isErr = false) →
+      (BrokerMeta.run false n false rs).results = (rs.map BrokerMeta.Resp.vals).flatten) := by
+  have hw : BrokerMeta.Waiting (BrokerMeta.complete (BrokerMeta.init n) false) n := by
+    have hne : n ≠ 0 := by omega
+    refine ⟨?_, ?_, ?_, ?_⟩ <;> simp [BrokerMeta.complete, BrokerMeta.tryClose, BrokerMeta.init, hne]
+  have h := BrokerMeta.run_waiting rs _ n hw hl hn
+  have hres : (BrokerMeta.complete (BrokerMeta.init n) false).results = [] := by
+    simp [BrokerMeta.complete, BrokerMeta.tryClose, BrokerMeta.init]; split <;> rfl
+  simp only [hres, List.nil_append] at h
+  exact h
+
+/-- a request that cannot be sent fails the query (the pipeline carries the TaskSend stage's error to
+`Complete`), whatever the other nodes answer -/
+theorem broker_meta_send_failure (n : Nat) (rs : List BrokerMeta.Resp) :
+    (BrokerMeta.run false n true rs).completed = true ∧ (BrokerMeta.run false n true rs).closes = 1 ∧
+      (BrokerMeta.run false n true rs).err = true := by
+  have hc : (BrokerMeta.complete (BrokerMeta.init n) true).completed = true ∧
+      (BrokerMeta.complete (BrokerMeta.init n) true).closes = 1 ∧
+      (BrokerMeta.complete (BrokerMeta.init n) true).err = true := by
+    simp [BrokerMeta.complete, BrokerMeta.tryClose, BrokerMeta.init]
+  unfold BrokerMeta.run
+  rw [BrokerMeta.foldl_completed false rs _ hc.1]
+  exact hc
+
 /-! ## non-vacuity -/
 
 /-- fan-out 2 under a synchronous root, one pooled child failing: a complete run -/
@@ -382,6 +417,13 @@ theorem two_responses_if_process_returns_error :
       (fun s => (terminalB s, runResponses ⟨true, true, false⟩ false false s, runResponses ⟨false, true, false⟩ false false s))
       = some (true, [true, true], [true]) := by decide
 
+/-- with an `ErrMsg` branch that spends `tolerantNotFounds` (the seeded change c19-14) a query over two
+nodes, one healthy and one failing with a real error, completes WITHOUT error with the healthy
+node's values: a successful partial answer -/
+theorem partial_answer_when_errmsg_is_tolerated :
+    BrokerMeta.run true 2 false [.ok ["a"], .err] = ⟨0, 1, false, ["a"], true, 1⟩ ∧
+    BrokerMeta.run true 2 false [.err, .ok ["a"]] = ⟨0, 1, false, ["a"], true, 1⟩ := by decide
+
 /-- a plan node whose trackable branch returns `nil` (the seeded change c19-11) turns the error of a
 trackable operator into success — the stage, and with it the pipeline, reports no failure -/
 theorem trackable_error_dropped : planNodeExec false true .error = .ok := rfl
@@ -434,6 +476,12 @@ theorem tie_reject : Generated.C19.rejectSteps = rejectOrder currentCfg.rejectNo
 /-- `Submit` does nothing after `p.tasks <- task` (hypothesis `recheck = false` of `reject_xor_execute`) -/
 theorem tie_submitNoRecheck : Generated.C19.submitRechecksStopped = false := by decide
 theorem tie_sendResponse : Generated.C19.sendResponseSteps = sendResponseOrder := by decide
+theorem tie_metadataHandleResponse :
+    Generated.C19.metadataHandleResponseSteps = BrokerMeta.handleResponseOrder := by decide
+/-- `MetadataContext.handleResponse` has no `ErrMsg` / `tolerantNotFounds` branch (hypothesis
+`toleratesErrMsg = false` of `broker_meta_error_iff`) -/
+theorem tie_metadataNoErrMsgTolerance : Generated.C19.metadataToleratesErrMsg = false := by decide
+theorem tie_taskTryClose : Generated.C19.taskTryCloseSteps = BrokerMeta.tryCloseOrder := by decide
 theorem tie_leafProcess : Generated.C19.leafProcessSteps = leafProcessOrder := by decide
 theorem tie_leafProcessDataSearch : Generated.C19.leafProcessDataSearchSteps = leafProcessDataSearchOrder := by decide
 theorem tie_leafProcessMetadataSuggest :
